@@ -18,7 +18,7 @@ INFO = {
     'outside': ['schemas outside the generator shapes', 'component values longer than 1 byte in the pair check'],
     'assumptions': ['schema texts are concrete'],
 }
-MANDATORY = {'check': ['check-equals-reference']}
+MANDATORY = {'check': ['check-equals-reference'], 'repartition': ['check-equals-reference']}
 
 
 def h_check(eng, case):
@@ -85,7 +85,48 @@ def _has_pattern_options(ref):
     return False
 
 
-HARNESSES = {'check': h_check}
+def h_repartition(eng, case):
+    """one checker object is asked two questions that consist of the SAME component sequence cut at different places
+    into packet name and key name (components from the schema's own literals plus a foreign one, chosen by the
+    solver-pruned choice - names are concrete here, so code that renders names as text can run): each answer is the
+    reference's answer for that cut"""
+    from ndn.app_support.light_versec import Checker
+    st = load_schema(case['schema'], case['text'])
+    if st[0] != 'ok':
+        eng.reach('schema-not-usable:' + st[0])
+        return
+    _, ref, model = st
+    alpha = [bytes(c) for c in ref.literals()][:case.get('alpha', 4)] + [b'\x08\x02zz']
+    comps = [alpha[eng.choice(len(alpha), 'c%d' % i)] for i in range(case['total'])]
+    try:
+        checker = Checker(model, user_fns())
+    except Exception as e:
+        eng.fail('checker-builds', exc_sig(e))
+        return
+    answers = []
+    for n, cut in enumerate(case['cuts']):
+        p, k = comps[:cut], comps[cut:]
+        try:
+            exp = lvsref.ref_check(ref, list(p), list(k), {})
+        except lvsref.UnboundFnArg:
+            eng.reach('unbound-function-argument-not-claimed')
+            return
+        try:
+            got = checker.check(list(p), list(k))
+        except Exception as e:
+            eng.fail('check-no-exception', exc_sig(e), repr(e)[:150])
+            return
+        answers.append(bool(got))
+        if bool(got) != bool(exp):
+            eng.fail('check-equals-reference', ('accepts-unauthorised-key' if got else 'rejects-authorised-key') +
+                     ':question-%d-on-one-checker' % n, {'schema': case['schema'], 'cuts': case['cuts']})
+            return
+    eng.check(True, 'check-equals-reference')
+    eng.observe('answers', answers)
+    eng.reach('end')
+
+
+HARNESSES = {'check': h_check, 'repartition': h_repartition}
 
 
 def cases(tier, seed):
@@ -116,6 +157,14 @@ def cases(tier, seed):
                 if lp in lens and lk in lens and 2 <= lp + lk <= 4 and (key.startswith('hand_') or tier != 'quick'):
                     cs.append(('check', {'schema': key, 'text': text, 'pshape': [1] * lp, 'kshape': [1] * lk,
                                          'twice': True}, {'weight': 1 + (lp + lk) ** 4}))
+        # the same component sequence cut at two places, asked of one checker object (concrete components)
+        if key.startswith('hand_') and L <= 4:
+            for total in (2, 3, 4):
+                for c1 in range(0, total + 1):
+                    for c2 in range(0, total + 1):
+                        if c1 != c2 and (c1 in lens or c2 in lens):
+                            cs.append(('repartition', {'schema': key, 'text': text, 'total': total, 'cuts': [c1, c2],
+                                                       'alpha': 3 if total == 4 else 4}, {'weight': 4 ** total}))
         # a name that consists of one component of symbolic type only (a lone implicit digest stands for the empty name)
         for l in sorted(set(lens + [0, 1])):
             cs.append(('check', {'schema': key, 'text': text, 'pshape': ['t'], 'kshape': [1] * l}, {'weight': 2}))
